@@ -3,6 +3,7 @@ package coder
 import (
 	"encoding/binary"
 	"errors"
+	stdmath "math"
 
 	"github.com/plgd-dev/go-coap/v3/message"
 	"github.com/plgd-dev/go-coap/v3/message/codes"
@@ -193,6 +194,10 @@ func (c *Coder) DecodeHeader(data []byte, h *MessageHeader) (int, error) {
 		extLen := binary.BigEndian.Uint32(data)
 		data = data[4:]
 		hdrOff += 4
+		if uint64(hdrOff)+1+uint64(tkl)+MessageLength15Base+uint64(extLen) > stdmath.MaxUint32 {
+			// the total length of the message is not representable in MessageHeader.MessageLength
+			return -1, ErrMessageTooLong
+		}
 		opLen = MessageLength15Base + int(extLen)
 	}
 
